@@ -163,10 +163,7 @@ func c15Outgoing(w *World, r *Report) {
 		n++
 		r.Analysed(w.FnName(fn))
 		key := w.FnName(fn)
-		isOutHdr := func(v ssa.Value) bool {
-			_, p := accessPath(v)
-			return len(p) >= 2 && p[len(p)-2] == "Out" && p[len(p)-1] == "Header"
-		}
+		isOutHdr := func(v ssa.Value) bool { return pathEndsWith(v, "Out", "Header") }
 		okM, okU, okH := false, false, false
 		bodyWrite := false
 		eachInstr(fn, func(in ssa.Instruction) {
@@ -213,14 +210,23 @@ func c15Outgoing(w *World, r *Report) {
 			}
 		}
 		okRep, msg := false, "the pipeline headers are not applied to the outgoing request"
-		isUpstream := func(v ssa.Value) bool {
+		var isUpstream func(v ssa.Value) bool
+		isUpstream = func(v ssa.Value) bool {
 			return dependsOn(w, v, func(x ssa.Value) bool {
+				// the parameter of a single-call helper stands for the argument handed to it
+				if pa, isParam := x.(*ssa.Parameter); isParam {
+					if b := bindParam(pa); b != ssa.Value(pa) {
+						return isUpstream(b)
+					}
+					return false
+				}
 				c, isC := x.(*ssa.Call)
 				return isC && methodCallNamed(c.Common(), "UpstreamHeaders")
 			})
 		}
-		eachInstr(fn, func(in ssa.Instruction) {
-			switch x := in.(type) {
+		for _, ia := range withHelperBodies(fn) {
+			in := ia.At
+			switch x := ia.In.(type) {
 			case *ssa.MapUpdate:
 				if isOutHdr(x.Map) && isUpstream(x.Value) {
 					okRep, msg = true, ""
@@ -234,14 +240,14 @@ func c15Outgoing(w *World, r *Report) {
 				n := callName(x.Common())
 				if (n == "net/http.Header.Set" || n == "net/http.Header.Add") && isOutHdr(x.Common().Args[0]) {
 					if _, isConst := constString(x.Common().Args[1]); isConst {
-						return
+						continue
 					}
 					if !isUpstream(x.Common().Args[2]) && !isUpstream(x.Common().Args[1]) {
-						return
+						continue
 					}
 					if n == "net/http.Header.Add" {
 						okRep, msg = false, "pipeline headers are added with Header.Add: a same-named header sent by the client stays in front of the pipeline's value"
-						return
+						continue
 					}
 					okRep, msg = true, ""
 					for _, d := range dels {
@@ -251,9 +257,13 @@ func c15Outgoing(w *World, r *Report) {
 					}
 				}
 			}
-		})
+		}
 		// an Add anywhere for pipeline headers overrides a positive finding
-		for _, c := range findCalls(fn, named("net/http.Header.Add")) {
+		for _, ia := range withHelperBodies(fn) {
+			c, isCall := ia.In.(*ssa.Call)
+			if !isCall || callName(c.Common()) != "net/http.Header.Add" {
+				continue
+			}
 			if isOutHdr(c.Common().Args[0]) && (isUpstream(c.Common().Args[2]) || isUpstream(c.Common().Args[1])) {
 				okRep, msg = false, "pipeline headers are added with Header.Add: a same-named header sent by the client stays in front of the pipeline's value"
 			}
